@@ -147,7 +147,7 @@ def plan(tier, seed):
                       'chain of the 4 proteins); transformations: chain renamings onto %s (order preserving), per-chain number shifts '
                       '{to negative, +1, +1000, to 9999, staggered, later chains lower, all chains from 1, each chain starting at the last number '
                       'of the previous one}, sequential renumbering in file order, insertion code introduced '
-                      'at each adjacent residue pair (quick: at most 8 positions per input, evenly spaced). non-trivial = distinct '
+                      'at each adjacent residue pair (quick: at most 8 positions per input, evenly spaced). further inputs: exactly two-fold symmetric dimers (tie), two copies of a ligand in chains carrying the same number, hetero groups without chain id that carry the number of the residue they are docked to, multi-conformation layouts; titrate-only lists naming both members of an insertion-code twin. non-trivial = distinct '
                       '(input, transformation) whose record has at least one determinant or non-zero desolvation term') % sorted(CHAIN_TARGETS),
                 bounds=dict(inputs=len(ins)), samples=[ins[0], ins[-1]])
 
